@@ -42,6 +42,11 @@ class Unknown(Exception):
     pass
 
 
+class TemplateInjection(Unknown):
+    """str.format / % applied to a template that is itself built from
+    values: braces or percent signs in those values are interpreted."""
+
+
 _PCT = re.compile(r'%(?:\((?P<name>[^)]*)\))?(?P<conv>[sdr%])')
 
 
@@ -63,7 +68,7 @@ def parse_percent(tmpl):
         out.append((lit, name))
     out.append((tmpl[pos:], None))
     if '%' in re.sub(_PCT, '', tmpl):
-        raise Unknown('unsupported % directive in %r' % tmpl)
+        raise Unknown('unsupported %% directive in %r' % tmpl)
     return out
 
 
@@ -134,6 +139,24 @@ def segments(expr, hook=None, depth=0):
         return out
     if isinstance(expr, ast.Call):
         mc = method_call(expr)
+        if mc and mc[1] == 'format' and not isinstance(
+                mc[0], ast.Constant) and isinstance(
+                    mc[0], (ast.BinOp, ast.JoinedStr, ast.Name)):
+            recv = merge(segments(mc[0], hook, depth + 1))
+            if recv and all(isinstance(x, Lit) for x in recv):
+                tmpl = ast.Constant(value=''.join(x.text for x in recv))
+                return segments(ast.Call(
+                    func=ast.Attribute(value=tmpl, attr='format',
+                                       ctx=ast.Load()),
+                    args=expr.args, keywords=expr.keywords), hook, depth + 1)
+            vals = [x for x in recv if not isinstance(x, Lit)]
+            if vals and any(isinstance(x, Lit) and '{' in x.text
+                            for x in recv):
+                raise TemplateInjection(
+                    'str.format is applied to a template that already '
+                    'holds the value %s: braces in that value are read as '
+                    'format fields (KeyError / IndexError, or `{{` turned '
+                    'into `{`)' % getattr(vals[0], 'source', '?')[:60])
         if mc and mc[1] == 'format' and isinstance(mc[0], ast.Constant) and \
                 isinstance(mc[0].value, str):
             out = []
@@ -205,6 +228,28 @@ def segments(expr, hook=None, depth=0):
                 return [Join(sep, segments(
                     ast.Call(func=a.args[0], args=[x], keywords=[]), hook,
                     depth + 1), U(a.args[1]), expr)]
+            if isinstance(a, (ast.GeneratorExp, ast.ListComp)) and len(
+                    a.generators) == 1 and not a.generators[0].ifs and \
+                    isinstance(a.generators[0].target, ast.Name) and \
+                    isinstance(a.generators[0].iter, (ast.List, ast.Tuple)) \
+                    and 0 < len(a.generators[0].iter.elts) <= 8 and not any(
+                        isinstance(x, ast.Starred)
+                        for x in a.generators[0].iter.elts):
+                # a comprehension over a display: one element per entry
+                import copy
+                var = a.generators[0].target.id
+
+                class _Put(ast.NodeTransformer):
+                    def __init__(self, val):
+                        self.val = val
+
+                    def visit_Name(self, n):
+                        return copy.deepcopy(self.val) if n.id == var else n
+                elts = [_Put(x).visit(copy.deepcopy(a.elt))
+                        for x in a.generators[0].iter.elts]
+                return segments(ast.Call(func=expr.func, args=[
+                    ast.List(elts=elts, ctx=ast.Load())], keywords=[]),
+                    hook, depth + 1)
             if isinstance(a, (ast.GeneratorExp, ast.ListComp)) and len(
                     a.generators) == 1:
                 return [Join(sep, segments(a.elt, hook, depth + 1),
